@@ -7,14 +7,17 @@
   carries is proved here:
     * presentation rounding is idempotent (a presented figure re-presents to
       itself) and determinism is trivial for a function;
-    * lines whose fixed amounts are not finer than the item price are
-      fixpoints of calculate ∘ present (partial statement, see below);
+    * every plain line whose fixed amounts are not finer than the figure it
+      is presented with is a fixpoint of calculate ∘ present ∘ re-read
+      (`line_fixpoint`, Proofs/CalcFix.lean; all quantities, prices,
+      percentages, bases, charge rates and both rules);
     * the one non-fixpoint of the unchanged code that the model exhibits — a
       fixed line discount finer than the item price — as a kernel-checked
       counter-example (known finding `c04.fixedAmountFinerThanPresented`).
 -/
 import GoblVerif.Spec.C04
 import GoblVerif.Proofs.CalcBasics
+import GoblVerif.Proofs.CalcFix
 
 namespace GoblVerif.Props.C04
 open GoblVerif GoblVerif.Calc GoblVerif.Spec.C04
@@ -47,6 +50,46 @@ theorem up_idem (a : Amount) (e : ℕ) : up (up a e) e = up a e :=
 /-- the calculation is a function: equal inputs give equal outputs (repetition, process and
     map-iteration order cannot matter for the modelled part) -/
 theorem calc_deterministic (d d' : Doc) (h : d = d') : calculate exactOps d = calculate exactOps d' := by rw [h]
+
+/-- stored `sum` and `total` of a priced line are outputs only: the calculation does not read them -/
+theorem stored_line_totals_ignored (cur : String) (c : ℕ) (rates : List XRate) (r : Rule) (l : Line) (it : Item)
+    (hi : l.item = some it) :
+    calcLine exactOps cur c rates r (reread l) = calcLine exactOps cur c rates r l := by
+  cases l
+  simp only at hi
+  subst hi
+  rfl
+
+/-- **line_fixpoint** (every plain line in the document currency whose fixed discount/charge amounts
+have no more decimals than the line is presented with — percentages, bases, charge rates, any
+quantity, price, rule): serialising the presented line and calculating it again gives the very same
+presented line.  The excluded lines are exactly the known finding below. -/
+theorem line_fixpoint (cur : String) (c : ℕ) (rates : List XRate) (r : Rule) (l l2 : Line) (it : Item)
+    (p : Amount) (hb : l.breakdown = []) (hi : l.item = some it) (hp : it.price = some p)
+    (hcur : (it.cur == "" || it.cur == cur) = true) (hsub : c ≤ it.sub)
+    (hd : ∀ d ∈ l.discounts, DiscountStable (max p.exp it.sub) d)
+    (hc : ∀ d ∈ l.charges, ChargeStable (max p.exp it.sub) d)
+    (h1 : present cur c rates r l = .ok l2) :
+    present cur c rates r (reread l2) = .ok l2 := by
+  unfold present at h1 ⊢
+  cases hcl : calcLine exactOps cur c rates r l with
+  | error e => rw [hcl] at h1; cases h1
+  | ok l1 =>
+    rw [hcl] at h1
+    simp only [Except.map] at h1
+    injection h1 with h1
+    subst h1
+    have hfix := calcLine_fixpoint cur c rates r l l1 it p hb hi hp hcur hsub hd hc hcl
+    have hitem : ∃ it', (roundLine exactOps l1).item = some it' := by
+      unfold calcLine at hcl
+      simp only [hi, hb, calcSubLines, List.filterMap_nil, List.isEmpty_nil, Bool.true_or, if_true, hp,
+        itemPrice_same cur c rates it p hcur, Option.getD_some] at hcl
+      injection hcl with hcl
+      subst hcl
+      exact ⟨_, rfl⟩
+    obtain ⟨it', hit'⟩ := hitem
+    rw [stored_line_totals_ignored cur c rates r _ it' hit', hfix]
+    rfl
 
 /-- **counter-example (known finding)**: price 10.00, quantity 1, fixed line
 discount 0.005: the first calculation presents total 10.00 and stores the
